@@ -353,7 +353,7 @@ def run_sched_case(case, acc, seen):
 
 def plan(tier, seed):
     shards = []
-    n = 16000 if tier == "quick" else 600000
+    n = 32000 if tier == "quick" else 600000
     for s, c in harness.split_range(n, 10 if tier == "quick" else 40):
         shards.append(dict(kind="rand", seed=seed, start=s, count=c))
     shards.append(dict(kind="fixed"))
